@@ -94,39 +94,59 @@ def handle1 (op : String) (a : Json) : Except String Json := do
     return valJ (boolJ (HolesInside (← getGeom (← fld a "g"))))
   | _ => .error s!"C05: unknown op {op}"
 
+/-- a call of a session / history: `{"op": "bounds" | "features" | "shape" | "point", "pos": …}` -/
+def getCall (c : Json) : Except String Call := do
+  match ← fldStr c "op" with
+  | "bounds" => pure .bounds
+  | "features" => pure .features
+  | "shape" => pure .shape
+  | "point" => pure (.point (← fldStr c "pos"))
+  | o => throw s!"C05: unknown call {o}"
+
+def ansJ : Except Err Ans → Json
+  | .ok (.bounds b) => valJ (boundsJ b)
+  | .ok (.features fs) => valJ (featuresJ fs)
+  | .ok (.shape s) => valJ (shapeJ s)
+  | .ok (.point p) => valJ (pairJ p)
+  | .error e => raiseJ e
+
+/-- split `xs` into consecutive groups of the given sizes -/
+def regroup {α} : List Nat → List α → List (List α)
+  | [], _ => []
+  | n :: ns, xs => xs.take n :: regroup ns (xs.drop n)
+
 /-- `session`: several operations on one geometry value, in order (the implementation runs them on
-    one and the same object); the last entry is the geometry itself (it must not have been mutated) -/
+    one and the same object); the last entry is the geometry itself (it must not have been mutated).
+    `history`: a sequence of steps on one object, evaluated by the model's `runHist` (every query
+    answers for the content the object has at that step: `C05_history_pure`). -/
 def handle (op : String) (a : Json) : Except String Json := do
   match op with
   | "session" =>
     let gj ← fld a "g"
-    let outs ← (← fldArr a "calls").mapM fun c => do
-      let o ← fldStr c "op"
-      let args := match fldOpt c "pos" with
-        | some p => Json.mkObj [("g", gj), ("pos", p)]
-        | none => Json.mkObj [("g", gj)]
-      handle1 o args
-    return valJ (arrJ (outs ++ [geomJ (← getGeom gj)]))
+    let g ← getGeom gj
+    let lib ← getLib a
+    let calls ← (← fldArr a "calls").mapM getCall
+    let outs := runHist (fun _ _ => lib) none (.set g :: calls.map .query)
+    return valJ (arrJ (outs.map ansJ ++ [geomJ g]))
   | "history" =>
-    -- a sequence of steps on one object: `query` steps are answered on the coordinates the object
-    -- has at that step (every other step carries the new geometry value `g`)
-    let mut cur : Option Json := none
-    let mut outs : List Json := []
+    let mut cur : Option Geom := none
+    let mut steps : List Step := []
+    let mut groups : List (Nat × Geom) := []
     for st in (← fldArr a "steps") do
       if (← fldStr st "do") == "query" then
         match cur with
         | none => throw "history: query before the first geometry"
-        | some gj =>
-          let rs ← (← fldArr st "calls").mapM fun c => do
-            let o ← fldStr c "op"
-            let args := match fldOpt c "pos" with
-              | some p => Json.mkObj [("g", gj), ("pos", p)]
-              | none => Json.mkObj [("g", gj)]
-            handle1 o args
-          outs := outs ++ [arrJ (rs ++ [geomJ (← getGeom gj)])]
+        | some g =>
+          let calls ← (← fldArr st "calls").mapM getCall
+          steps := steps ++ calls.map .query
+          groups := groups ++ [(calls.length, g)]
       else
-        cur := some (← fld st "g")
-    return valJ (arrJ outs)
+        let g ← getGeom (← fld st "g")
+        cur := some g
+        steps := steps ++ [.set g]
+    let outs := runHist (fun _ _ => (0, 0)) none steps
+    let parts := regroup (groups.map (·.1)) outs
+    return valJ (arrJ ((parts.zip groups).map fun (rs, grp) => arrJ (rs.map ansJ ++ [geomJ grp.2])))
   | _ => handle1 op a
 
 end SE.Ops.C05
